@@ -368,8 +368,37 @@ def rule_regularisers(F, R, rule="R-C09-4"):
     g = F.one("nano::gboost::grads_function_t::do_vgrad", "src/gboost/function.cpp")
     asg = [x for x in g.nodes() if assignment(x) and kalg.designator(assignment(x)[0]) == "gx"]
     rets = [x for x in g.nodes() if x["k"] == "return"]
-    okg = len(asg) == 1 and pp(assignment(asg[0])[1]) == "(grads.vector() / cast<double>(samples.size()))" and pp(rets[0]["c"][0]) == "m_values.vector().mean()"
-    R.check(okg, rule, "gboost gradient objective", g.loc(), "value = mean loss, gradient = per-sample gradients / samples", "gradient objective changed")
+    def through_locals(n, depth=0):
+        """text of an expression with (reference / const) locals replaced by their initialisers"""
+        n = skip(n)
+        while n is not None and n["k"] in ("cast", "paren") and n.get("c"):
+            n = skip(n["c"][0])
+        if n is None:
+            return "?"
+        if n["k"] == "ref" and n.get("dk") == "var" and depth < 4:
+            v_, _ = find_var(g, n["d"])
+            if v_ is not None and v_.get("c"):
+                return through_locals(v_["c"][0], depth + 1)
+        if n["k"] == "call" and n.get("ck") == "mem" and not args(n):
+            return "%s.%s()" % (through_locals(obj(n), depth), callee(n).split("::")[-1])
+        return pp(n)
+    okv = len(rets) == 1 and through_locals(rets[0]["c"][0]) in ("m_values.vector().mean()", "m_values.mean()", "m_values.array().mean()")
+    R.check(okv, rule, "gboost gradient objective value", g.loc(), "value = mean of the per-sample loss values", "the value returned is `%s`, not the mean of m_values" % (
+        through_locals(rets[0]["c"][0]) if rets else "?"))
+    if len(asg) != 1:
+        R.bad(rule, "gboost gradient objective", g.loc(), "expected one assignment of the gradient")
+    else:
+        rhs = skip(assignment(asg[0])[1])
+        while rhs is not None and rhs["k"] in ("cast", "paren") and rhs.get("c"):
+            rhs = skip(rhs["c"][0])
+        num = den = None
+        if rhs is not None and ((rhs["k"] == "bin" and rhs["op"] == "/") or (rhs["k"] == "call" and rhs.get("op") == "/" and len(rhs.get("c", ())) == 2)):
+            num, den = through_locals(rhs["c"][0]), through_locals(rhs["c"][1])
+        okg = num is not None and re.match(r"^gradients\(.*\)(\.vector\(\)|\.array\(\))?$", num) is not None and den == "m_iterator.samples().size()"
+        R.check(okg, rule, "gboost gradient objective", g.loc(asg[0]),
+                "gradient = per-sample gradients / number of samples the mean is taken over (m_iterator.samples().size())",
+                "the gradient is `%s` divided by `%s`; the value is the mean over the m_iterator.samples().size() selected samples, so its derivative divides by that count "
+                "(on a strict subset of the dataset the two differ by the factor M / N)" % (num, den) if num is not None else "the gradient is `%s`" % pp(rhs)[:80])
 
 
 def rule_iterator_chunks(F, R):
